@@ -33,6 +33,7 @@ trusted = ["hand-written model MptModel/Impl/Parse.lean + Impl/ParseConfig.lean 
            "harness/drv_parse.c; reference writer MptModel/Spec/Render.lean (its output is what the real parser "
            "is fed with)"]
 
+NDECOR = 7   # decorations `Render.decorOf 0..6`
 STYLES = {"brace": None, "sep": "[ ] = #", "bar": "|x| = #", "enc": "{x} = #"}
 
 
@@ -139,7 +140,7 @@ def exhaustive(tier):
     forests = sorted(set(forests))
     out = []
     for style in STYLES:
-        reqs = [(style, d, f) for f in forests for d in range(5)]
+        reqs = [(style, d, f) for f in forests for d in range(NDECOR)]
         res = render_all(reqs)
         items = [(d, f, h) for (s, d, f), (h, adm) in zip(reqs, res) if adm and h]
         out += assemble("ex", style, items, 20)
@@ -190,7 +191,7 @@ def random_forests(tier, seed, scale):
         reqs = []
         for _ in range(n // 3 + 1):
             f = _rand_forest(r, tier, 0, style in ("sep", "bar"))
-            reqs.append((style, r.randrange(5), forest_text(f)))
+            reqs.append((style, r.randrange(NDECOR), forest_text(f)))
         res = render_all(reqs)
         items = [(d, f, h) for (s, d, f), (h, adm) in zip(reqs, res) if adm and h]
         out += assemble("rnd", style, items, 4)
@@ -264,8 +265,204 @@ def onequote(tier, seed):
     return out
 
 
+
+# ---------------------------------------------------------------------------------------------------------
+# layouts the reference writer of the model does not produce: the text is written HERE, from the rules of the
+# file format, and the forest it has to give is handed to the model driver with `p expect`
+LAYFMT = [
+    # (description or None, family, sstart, send, assign, comment characters)
+    (None, "brace", "{", "}", "=", "#"),
+    ("(*) : !%", "brace", "(", ")", ":", "!%"),
+    ("<*> ~ ;", "brace", "<", ">", "~", ";"),
+    ("[ ] = #", "sep", "[", "]", "=", "#"),
+    ("( ) : !", "sep", "(", ")", ":", "!"),
+    ("|x| = #", "bar", "|", "", "=", "#"),
+    ("/x/ : !", "bar", "/", "", ":", "!"),
+    ("{x} = #", "enc", "{", "}", "=", "#"),
+    ("(x) : !", "enc", "(", ")", ":", "!"),
+]
+
+
+def _lay_name(r, F, inner_blank):
+    bad = set(b" \t\r\n\x0b\x0c.\x00\"'" + (F[2] + F[3] + F[4] + F[5]).encode())
+    pool = [c for c in b"abcXYZ019_-+*&$@~^,;:!%/<>(){}[]|=#\\\x01\x7f\x80\xe9\xff" if c not in bad]
+    n = bytes(r.choice(pool) for _ in range(r.choice([1, 1, 2, 3, 6])))
+    if inner_blank and r.random() < 0.15:
+        n = n + r.choice([b" ", b"  ", b"\t"]) + bytes([r.choice(pool)])
+    return n
+
+
+def _lay_value(r, F):
+    k = r.random()
+    if k < 0.15:
+        return None
+    if k < 0.22:
+        return b""
+    L = r.choice([1, 1, 2, 3, 5, 8, 20])
+    pool = r.choice([b"abc xyz019", b"ab \"'\\" + F[5].encode() + F[4].encode(), bytes(range(1, 256)), b"a b\t", b"x",
+                     b"\\\"' ", (F[2] + F[3] + "[]{}|").encode()])
+    return bytes(r.choice(pool) for _ in range(L))
+
+
+def _q(v, q):
+    body = v.rstrip(b"\\")
+    tail = v[len(body):]
+    return q + body.replace(q, b"\\" + q) + q + tail
+
+
+def _lay_valtext(r, v, F):
+    """one of the spellings of a value"""
+    com = F[5].encode()
+    plain_ok = (v and not any(c in v for c in b"\x00\n\"'" + com) and v[:1] not in b" \t\r\x0b\x0c\n"
+                and v[-1:] not in b" \t\r\x0b\x0c\n")
+    k = r.random()
+    if plain_ok and k < 0.4:
+        return v
+    if k < 0.6:
+        return _q(v, b"'")
+    return _q(v, b"\"")
+
+
+def _lay_ws(r, opt=True):
+    return r.choice([b"", b"", b" ", b"\t", b"  ", b" \t", b"\x0c", b"\x0b "] if opt else [b" ", b"\t", b"  "])
+
+
+def _lay_trail(r, F, need_blank):
+    """behind an element on its line: blanks, maybe a comment"""
+    k = r.random()
+    if k < 0.5:
+        return b""
+    if k < 0.7:
+        return _lay_ws(r, False)
+    c = F[5][r.randrange(len(F[5]))].encode()
+    return (_lay_ws(r, False) if need_blank else _lay_ws(r)) + c + r.choice([b"", b" note", b"x=1 {", b"'\""])
+
+
+def _lay_between(r, F, eol):
+    """whole lines between elements"""
+    out = b""
+    while r.random() < 0.25:
+        k = r.random()
+        if k < 0.4:
+            out += _lay_ws(r) + eol
+        else:
+            c = F[5][r.randrange(len(F[5]))].encode()
+            out += _lay_ws(r) + c + r.choice([b"", b" text", b" a=1", b" }"]) + eol
+    return out
+
+
+def _lay_option(r, F, n, v, eol):
+    line = _lay_ws(r) + n + _lay_ws(r) + F[4].encode() + _lay_ws(r)
+    if v:
+        line += _lay_valtext(r, v, F)
+    return line + _lay_trail(r, F, True) + eol
+
+
+def _lay_nested(r, F, forest, eol, depth=0):
+    """brace / enc family; returns list of (text, kind) pieces"""
+    fam, so, sc = F[1], F[2].encode(), F[3].encode()
+    out = []
+    for n, v, cs in forest:
+        out.append(_lay_between(r, F, eol))
+        if cs is None and not (v is None and r.random() < 0.5):
+            out.append(_lay_option(r, F, n, v, eol))
+            continue
+        kids = cs or []
+        # section start
+        if fam == "brace":
+            k = r.random()
+            if k < 0.6:
+                head = _lay_ws(r) + n + _lay_ws(r) + so
+            elif k < 0.8:
+                head = _lay_ws(r) + n + so
+            else:
+                head = _lay_ws(r) + n + _lay_ws(r) + eol + _lay_between(r, F, eol) + _lay_ws(r) + so
+            nameend = b""
+        else:
+            head = _lay_ws(r) + so + _lay_ws(r) + n
+            nameend = b" "
+        first_inline = kids and kids[0][2] is None and kids[0][1] is not None and r.random() < 0.2
+        if first_inline:
+            fn, fv, _ = kids[0]
+            out.append(head + (nameend or _lay_ws(r)) + fn + _lay_ws(r) + F[4].encode() + _lay_ws(r)
+                       + (_lay_valtext(r, fv, F) if fv else b"") + _lay_trail(r, F, True) + eol)
+            kids = kids[1:]
+        else:
+            out.append(head + _lay_trail(r, F, False) + eol)
+        out += _lay_nested(r, F, kids, eol, depth + 1)
+        out.append(_lay_between(r, F, eol))
+        out.append(_lay_ws(r) + sc + _lay_trail(r, F, False) + eol)
+    return out
+
+
+def _lay_flat(r, F, forest, eol):
+    fam, so, sc = F[1], F[2].encode(), F[3].encode()
+    out = []
+    for n, v, cs in forest:
+        out.append(_lay_between(r, F, eol))
+        if cs is None:
+            out.append(_lay_option(r, F, n, v, eol))
+            continue
+        if fam == "sep":
+            head = _lay_ws(r) + so + _lay_ws(r) + n + _lay_ws(r) + sc
+        else:
+            head = _lay_ws(r) + so + _lay_ws(r) + n
+        out.append(head + _lay_trail(r, F, False) + eol)
+        for cn, cv, _ in cs:
+            out.append(_lay_between(r, F, eol))
+            out.append(_lay_option(r, F, cn, cv, eol))
+    return out
+
+
+def _lay_forest(r, F, depth=0):
+    fam = F[1]
+    flat = fam in ("sep", "bar")
+    out = []
+    for _ in range(r.choice([1, 2, 3, 4]) if depth == 0 else r.choice([0, 0, 1, 2, 3])):
+        if (depth < (1 if flat else 3)) and r.random() < 0.45:
+            out.append((_lay_name(r, F, False), None, _lay_forest(r, F, depth + 1)))
+        else:
+            out.append((_lay_name(r, F, fam == "brace"), _lay_value(r, F), None))
+    if flat and depth == 0:
+        out.sort(key=lambda t: 0 if t[2] is None else 1)
+    return out
+
+
+def _lay_norm(forest):
+    return [(n, (v or None) if cs is None else None, _lay_norm(cs) if cs else None) for n, v, cs in forest]
+
+
+def layouts(tier, seed, scale):
+    r = gen.rng(id, tier, seed, "layouts")
+    out = []
+    n = (420 if tier == "quick" else 4000) * scale
+    for k in range(n):
+        F = LAYFMT[k % len(LAYFMT)]
+        eol = b"\r\n" if r.random() < 0.25 else b"\n"
+        forest = _lay_forest(r, F)
+        pieces = (_lay_flat if F[1] in ("sep", "bar") else _lay_nested)(r, F, forest, eol)
+        text = b"".join(pieces)
+        # behind the last element: nothing / blank and comment lines / a last line without line feed
+        k2 = r.random()
+        last_is_header = False
+        body = [p for p in pieces if p]
+        if body and F[1] in ("bar", "enc"):
+            lastline = body[-1].rstrip(b"\r\n").lstrip(b" \t\x0b\x0c")
+            last_is_header = lastline.startswith(F[2].encode())
+        if k2 < 0.3 and text.endswith(eol) and not last_is_header:
+            text = text[:-len(eol)]          # no final line feed
+        elif k2 < 0.5:
+            text += _lay_between(r, F, eol) + eol + _lay_ws(r)
+        elif k2 < 0.65:
+            text += _lay_ws(r) + F[5][0].encode() + b" the end"
+        lines = ["p fmt %s 255 255" % ("null" if F[0] is None else hx(F[0])), "p root .", "p input " + hx(text),
+                 "p expect " + forest_text(_lay_norm(forest)), "p node", "p end"]
+        out.append(("lay:%s:%d" % (F[1], k), lines))
+    return out
+
 def scripts(tier, seed, scale=1):
-    return stat_all(exhaustive(tier) + random_forests(tier, seed, scale) + dotted(tier) + onequote(tier, seed))
+    return stat_all(exhaustive(tier) + random_forests(tier, seed, scale) + dotted(tier) + onequote(tier, seed)
+                    + layouts(tier, seed, scale))
 
 
 def nontrivial(script, c_lines):
@@ -342,7 +539,7 @@ class _XX:
                         forests.append(forest_text(label(sh, np_, vp, [0])))
         forests = sorted(set(forests))
         for style in STYLES:
-            reqs = [(style, r.randrange(5), f) for f in forests]
+            reqs = [(style, r.randrange(NDECOR), f) for f in forests]
             res = render_all(reqs)
             items = [(d, f, h) for (s, d, f), (h, adm) in zip(reqs, res) if adm and h and len(h) < 4000]
             desc = STYLES[style]
